@@ -43,6 +43,17 @@ type World struct {
 	summary []string
 	states  []string
 
+	// C18 (hostile input) and C19 (concurrent entry points) profiles
+	hostile bool
+	conc    bool
+	HF      HostileFeatures
+	hSeq    int
+	hPols   []string
+	// C19: the galaxy task in flight per stream (each informer runs one handler at a time; one Run loop; several
+	// CNI requests)
+	podTask, polTask, syncTask *core.Task
+	cniTasks                   []*cniInFlight
+
 	// ADDED notifications of the initial list that have not run yet (store already complete)
 	initialAdds [][]byte
 
@@ -61,6 +72,7 @@ type World struct {
 	firstSync bool
 	unconverged string
 	flowsJudged, flowsDenied, flowsAllowed int
+	followUpDone                           bool
 }
 
 func (w *World) fail(oracle, key, format string, a ...interface{}) {
@@ -73,7 +85,7 @@ func (w *World) fail(oracle, key, format string, a ...interface{}) {
 func (w *World) armed(p string) bool { return w.prop == p }
 
 func newWorld(s *core.Sim, prop, tier string) *World {
-	w := &World{S: s, C: s.C, prop: prop, tier: tier}
+	w := &World{S: s, C: s.C, prop: prop, tier: tier, hostile: prop == "C18", conc: prop == "C19"}
 	w.K = simkube.New(s)
 	w.Kern = simkernel.New()
 	c := w.C
@@ -81,6 +93,13 @@ func newWorld(s *core.Sim, prop, tier string) *World {
 	w.G = newGen(c, w.F)
 	w.cl = w.G.cluster()
 	w.opsLeft = c.Range(0, 12)
+	if w.hostile {
+		w.HF = w.genHostileFeatures()
+		w.opsLeft = c.Range(2, 16)
+	}
+	if w.conc {
+		w.opsLeft = c.Range(4, 16)
+	}
 	w.setupPriorKernel()
 	for _, n := range sortedKeys(w.cl.NS) {
 		w.mustCreate("namespaces", w.cl.NS[n].api())
@@ -317,6 +336,9 @@ func (w *World) AfterStep() {}
 func (w *World) busy() bool { return len(w.S.Tasks()) > 0 }
 
 func (w *World) Actions() []core.Action {
+	if w.conc {
+		return w.concActions()
+	}
 	if !w.ready || w.busy() || w.stage != 0 {
 		return nil
 	}
@@ -360,9 +382,18 @@ func (w *World) deliver(kind string) {
 	typ := ev.Type.String()
 	inst := w.inst
 	w.handlers++
-	t := w.S.Spawn(fmt.Sprintf("%s:%s:%s", kind[:3], typ, ev.Key), w.proc, func() { eventTask(inst, kind, typ, oldJ, newJ) })
+	tomb := ev.Tombstone
+	if tomb {
+		w.S.Stat("probe.tombstone-delivery")
+	}
+	t := w.S.Spawn(fmt.Sprintf("%s:%s:%s", kind[:3], typ, ev.Key), w.proc, func() { eventTask(inst, kind, typ, oldJ, newJ, tomb) })
 	t.Tag = kind[:3]
 	w.S.Sig("E:" + kind[:3] + ":" + typ)
+	if kind == "pods" {
+		w.podTask = t
+	} else {
+		w.polTask = t
+	}
 }
 
 func (w *World) initialAdd() {
@@ -370,9 +401,10 @@ func (w *World) initialAdd() {
 	w.initialAdds = w.initialAdds[1:]
 	inst := w.inst
 	w.handlers++
-	t := w.S.Spawn(fmt.Sprintf("net:ADDED:initial-%d", w.handlers), w.proc, func() { eventTask(inst, "networkpolicies", "ADDED", nil, js) })
+	t := w.S.Spawn(fmt.Sprintf("net:ADDED:initial-%d", w.handlers), w.proc, func() { eventTask(inst, "networkpolicies", "ADDED", nil, js, false) })
 	t.Tag = "net"
 	w.S.Sig("E:net:ADDED")
+	w.polTask = t
 }
 
 func (w *World) spawnSync(name string) {
@@ -380,6 +412,7 @@ func (w *World) spawnSync(name string) {
 	w.syncs++
 	t := w.S.Spawn(name, w.proc, func() { syncTask(inst, name) })
 	t.Tag = "sync"
+	w.syncTask = t
 }
 
 // Idle drives the end-of-run phases: everything delivered -> full sync -> checks -> second sync -> checks.
@@ -390,9 +423,30 @@ func (w *World) Idle() bool {
 	}
 	if w.busy() {
 		if b := w.S.Blocked(); len(b) > 0 {
-			w.S.Infra = "galaxy tasks blocked forever (deadlock) in a one-at-a-time history"
+			var names []string
+			for _, t := range b {
+				names = append(names, t.Name)
+			}
+			if w.armed("C18") {
+				w.fail("C18.wedged", "wedged", "tasks blocked forever on locks: %s", strings.Join(names, ","))
+			} else {
+				w.S.Infra = "galaxy tasks blocked forever (deadlock): " + strings.Join(names, ",")
+			}
 		} else {
 			w.S.Infra = "tasks alive but none enabled"
+		}
+		return false
+	}
+	if w.hostile || w.conc {
+		// everything delivered and done: one ordinary full synchronisation on the same instance must complete
+		switch w.stage {
+		case 0:
+			w.stage = 1
+			w.spawnSync("sync:follow-up")
+			return true
+		case 1:
+			w.stage = 2
+			w.followUpDone = true
 		}
 		return false
 	}
